@@ -443,8 +443,8 @@ impl Prop for CliOptions {
 
     fn runs(&self, tier: Tier) -> u64 {
         match tier {
-            Tier::Quick => 8_000,
-            Tier::Thorough => 200_000,
+            Tier::Quick => 40_000,
+            Tier::Thorough => 800_000,
         }
     }
 
